@@ -5,6 +5,7 @@ package fakes
 import (
 	"context"
 	"net/http"
+	"sync"
 
 	"github.com/go-logr/logr"
 	apimeta "k8s.io/apimachinery/pkg/api/meta"
@@ -20,11 +21,16 @@ import (
 )
 
 // Manager is a manager.Manager that only serves a client, a scheme and a field indexer.
+// It keeps every Runnable handed to Add (the controllers a production Setup function
+// registers through controller-runtime's builder), see Runnables.
 type Manager struct {
 	Client  client.Client
 	Sch     *runtime.Scheme
 	Indexer client.FieldIndexer
 	Webhook webhook.Server
+
+	addMu sync.Mutex
+	added []manager.Runnable
 }
 
 var _ manager.Manager = &Manager{}
@@ -38,7 +44,6 @@ func (m *Manager) GetConfig() *rest.Config                         { return &res
 func (m *Manager) GetCache() cache.Cache                           { return nil }
 func (m *Manager) GetEventRecorderFor(string) record.EventRecorder { return record.NewFakeRecorder(1024) }
 func (m *Manager) GetRESTMapper() apimeta.RESTMapper               { return nil }
-func (m *Manager) Add(manager.Runnable) error                      { return nil }
 func (m *Manager) Elected() <-chan struct{}                        { return nil }
 func (m *Manager) AddMetricsServerExtraHandler(string, http.Handler) error { return nil }
 func (m *Manager) AddHealthzCheck(string, healthz.Checker) error   { return nil }
@@ -46,4 +51,25 @@ func (m *Manager) AddReadyzCheck(string, healthz.Checker) error    { return nil 
 func (m *Manager) Start(context.Context) error                     { return nil }
 func (m *Manager) GetWebhookServer() webhook.Server                { return m.Webhook }
 func (m *Manager) GetLogger() logr.Logger                          { return logr.Discard() }
-func (m *Manager) GetControllerOptions() config.Controller         { return config.Controller{} }
+
+// Add keeps the Runnable (nothing is ever started).
+func (m *Manager) Add(r manager.Runnable) error {
+	m.addMu.Lock()
+	defer m.addMu.Unlock()
+	m.added = append(m.added, r)
+	return nil
+}
+
+// Runnables returns what was handed to Add so far, in order.
+func (m *Manager) Runnables() []manager.Runnable {
+	m.addMu.Lock()
+	defer m.addMu.Unlock()
+	return append([]manager.Runnable(nil), m.added...)
+}
+
+// GetControllerOptions skips controller-runtime's process-wide check that controller names are
+// unique: a driver builds the same controllers many times in one process.
+func (m *Manager) GetControllerOptions() config.Controller {
+	skip := true
+	return config.Controller{SkipNameValidation: &skip}
+}
